@@ -45,6 +45,10 @@ def write_and_run(pid, ob, plan, ctx):
             break
     head = HEADER % {"pid": pid, "name": ob.name, "where": ob.where, "kind": ob.kind,
                      "model": json.dumps(ob.model, indent=1, default=str)}
+    for w in (ob.meta or {}).get("witness", []) or []:
+        head += "# witness: %s\n" % str(w).replace("\n", " ")
+    if getattr(ob, "reason", None):
+        head += "# solver: %s\n" % str(ob.reason).replace("\n", " ")
     if not body:
         with open(path, "w") as f:
             f.write(head + "\n# no native replay is available for this obligation family\n"
